@@ -60,6 +60,9 @@ def run(ctx):
     ctx.rule("R16.s", "selector model, compute_default: Selector.compute_default and ListSelector.compute_default interpreted (objects declared up front, a computed default among / outside the "
                       "objects, with and without check_on_set): the computed default -- every item of it -- ends up among the objects in force, exactly once, so the value the object then "
                       "serializes is in the enum its schema lists", floor=1)
+    ctx.rule("R16.t", "enum schemas describe the serialized form: for every Parameter type whose schema method lists the objects themselves as `enum` (selector_schema, objectselector_schema, "
+                      "listselector_schema and the types that inherit them), serialize / deserialize resolve to the identity of the base Parameter -- a codec that rewrites the value "
+                      "(e.g. to its label) would put states into the JSON that the enum does not contain", floor=3)
     ctx.rule("R16.a", "schema dispatch is exhaustive for the listed types: <lower>_schema exists or <lower> is a JSON-Schema primitive; methods deriving 'type' from the class name are reached only for primitive names", floor=15)
     ctx.rule("R16.b", "every key emitted by the schema methods is a JSON-Schema keyword and every literal 'type' value a primitive type name", floor=40)
     ctx.rule("R16.c", "declare_numeric_bounds emits exactly minimum|exclusiveMinimum -> low and maximum|exclusiveMaximum -> high chosen by inclusive_bounds[0]/[1]; "
@@ -431,3 +434,30 @@ def run(ctx):
     setter_model.report(ctx, "C16", "R16.m")
     from checks import selector_model
     selector_model.report_compute_default(ctx, "R16.s")
+    # R16.t
+    SERQ = "param.serializer.JSONSerialization"
+    enum_schemas = {}
+    for g in ctx.repo.funcs.values():
+        if g.cls is not None and g.cls.qualname == SERQ and g.name.endswith("_schema"):
+            emits = any(isinstance(n, ast.Constant) and n.value == "enum" for n in ast.walk(g.node))
+            if emits and any(isinstance(n, ast.Attribute) and n.attr == "objects" for n in ast.walk(g.node)):
+                enum_schemas[g.name[:-len("_schema")]] = g
+    ctx.require(len(enum_schemas) >= 2, "fewer than 2 schema methods listing objects as enum found (%d)" % len(enum_schemas))
+    base_ser = {m: ctx.hier.resolve("param.parameterized.Parameter", m) for m in ("serialize", "deserialize")}
+    n_t = 0
+    for cq in sorted(ctx.repo.classes):
+        if not ctx.facts.is_parameter_cls(cq):
+            continue
+        via = next((k for k in ctx.hier.mro(cq) if k.rsplit(".", 1)[-1].lower() in enum_schemas), None)
+        if via is None:
+            continue
+        n_t += 1
+        sch = enum_schemas[via.rsplit(".", 1)[-1].lower()]
+        bad = [m for m in ("serialize", "deserialize") if ctx.hier.resolve(cq, m) is not base_ser[m]]
+        if bad:
+            g = ctx.hier.resolve(cq, bad[0])
+            ctx.fail("R16.t", g, g.node, "%s.%s rewrites the value, but the schema of %s (%s) lists the objects themselves as enum: the serialized state of a valid object is not in the "
+                                         "enum its own schema gives" % (g.qualname.rsplit(".", 2)[-2], bad[0], cq.rsplit(".", 1)[-1], sch.name), key="%s::codec-vs-enum-schema" % g.qualname)
+        else:
+            ctx.ok("R16.t", sch, sch.node, "%s is serialized as it is; %s lists the objects" % (cq.rsplit(".", 1)[-1], sch.name))
+    ctx.require(n_t >= 3, "fewer than 3 Parameter types with an enum schema found (%d)" % n_t)
